@@ -242,3 +242,25 @@ NOT_APPLICABLE = {
     "C08": "snapshot installation across processes through actix future chains whose only effects are messages to other actors (DESIGN §6)",
     "C15": "convergence after quiescence across nodes: liveness over message schedules and node failures (DESIGN §6)",
 }
+
+# ---- second build round: what was added to each level (appended so that the first-round texts stay as written)
+CHECKS["C20"]["text"] += (" Second build round: the unrolled 10-byte decoder read_varint64_offset is itself under contract (every return equals (vlen, vval) of the spec for EVERY "
+                          "slice and offset; bit-vector group lemmas), no longer assumed; a Kani companion (all slices <= 12 bytes, offsets <= 2) supplies concrete counterexamples; an always-on "
+                          "BOUNDED chunking stand-in decides when a rewrite takes the reader's text out of the proof's reach.")
+CHECKS["C20"]["note"] = "protobuf payload encoding not verified; A-FULLREAD for FileMessageReader; shims in shims/base.rs; see evidence trusted_base."
+_BEHIND = (" Behind the proved functions an always-on BOUNDED stand-in (labelled bounded, never counted as proved) decides the statement over operation sequences when a rewrite "
+           "(a new helper, a reshaped body) takes the functions' text out of the proof's reach: ")
+CHECKS["C02"]["text"] += _BEHIND + "71 single-file log histories compared with a model after every step and after every reopen (payload sizes around the 1/2/3-byte prefix steps and the 1024-byte read chunk, records ending on the preallocated end of the file, entries above the growth step)."
+CHECKS["C03"]["text"] += _BEHIND + "the same 71 single-file histories (cuts 1 / 20 / 60 / 129 entries back, re-appends shorter / equal / longer than the removed suffix, page-sized suffixes, reopen)."
+CHECKS["C01"]["text"] += " The single-file log histories of C02 / C03 (bounded) also run for this property."
+CHECKS["C05"]["text"] += " The always-on bounded index-actor stand-in now also restarts the actor between saves (copy of the directory, fresh process view): 9 792 sequences."
+CHECKS["C09"]["text"] += _BEHIND + "every sequence of <= 5 operations out of 10 on two keys (publish x / y, remove, provisional routed value) with content, md5, history and listing compared after every step."
+CHECKS["C10"]["text"] += (" Second build round: Subscriber::{remove_client_subscribe, remove_config_key} (loops over an owned HashSet) are proved, not assumed; the Subscribe / RemoveSubscribe / "
+                          "RemoveSubscribeClient arms of the handler carry the subscription relation and the immediate stale-md5 answer." + _BEHIND +
+                          "subscription sequences (two connections, key sets, end of connection) next to the long-poll schedules.")
+CHECKS["C12"]["text"] += " The registry bookkeeping stand-in (bounded, 168 420 operation sequences) also decides the disconnect clause: exactly the ephemeral instances owned by the closed connection disappear."
+CHECKS["C13"]["text"] += _BEHIND + "144 pairs of heartbeat patterns on a virtual clock (healthy while beating within the time-out, unhealthy / gone one tick after the time-outs at the latest, persistent and gRPC-owned instances untouched)."
+CHECKS["C16"]["text"] += " An always-on BOUNDED stand-in covers the token store both auth checks ask (DirectCacheManager: a token is refused after its lifetime, also on a node restored from a snapshot; never-issued and removed tokens refused)."
+CHECKS["C18"]["text"] += " An always-on BOUNDED stand-in covers the chain stored user record -> login session -> request for 20 privilege groups (prost round trip, From<UserDo>, user_namespace_privilege!)."
+CHECKS["C19"]["text"] += _BEHIND + "publish histories with batch size 3, a restart + log replay after every prefix and further publishes: every id drawn above every earlier one."
+CHECKS["C07"]["text"] += " The start-up stand-in (real start-up sequence over a real data directory, bounded) and the history-id stand-in also run for this property (replay path against the leader path)."
